@@ -348,6 +348,8 @@ func getModel(script, dir, base, solver string, timeoutS int) string {
 	return ""
 }
 
+var noRetry map[string]bool
+
 // solveAll discharges obligations in parallel.
 func solveAll(jobs []*solveJob, dir string, timeoutS int, needAgree bool, par int) {
 	var wg sync.WaitGroup
@@ -385,7 +387,7 @@ func solveAll(jobs []*solveJob, dir string, timeoutS int, needAgree bool, par in
 		if retried >= 3 {
 			break
 		}
-		if j.o.Expect != "unsat" || j.o.Result != "timeout" {
+		if j.o.Expect != "unsat" || j.o.Result != "timeout" || noRetry[j.o.Name] {
 			continue
 		}
 		retried++
